@@ -25,6 +25,11 @@ import (
 
 const topicNS = alertservice.TopicStatesNameSpace
 
+// Every wait in this driver is on an exact condition (timer stop, handler enq == done,
+// a completed View); the deadlines only turn a hang into exit 2.  They are generous
+// because the machine may be heavily oversubscribed.
+const deadlineScale = 6
+
 // Cfg is the alert node configuration in model terms.
 type Cfg struct {
 	Anon, Named, SCO bool
@@ -73,7 +78,6 @@ type world struct {
 	taskID   string
 	anonT    string // real anonymous topic name
 	namedT   string // real named topic name
-	namedRec *rt.RecHandler
 	script   string
 	timerIdx int
 	fed      int
@@ -187,12 +191,18 @@ func (w *world) onUpdate(ns, phase string, ops []rt.TxOp, err error) {
 	w.onTx("end", r)
 }
 
-// registerNamed puts the recording handler on the named topic (as a handler
-// spec loaded at service start would be: before any task runs).
-func (w *world) registerNamed() {
-	if w.cfg.Named && w.namedRec == nil {
-		w.namedRec = rt.NewRecHandler("named")
-		w.env.Alert.RegisterAnonHandler(w.namedT, w.namedRec)
+// registerNamed gives the named topic its handler: a handler spec (kind "talk" = recorder)
+// registered through the service API in the first process lifetime.  The spec is
+// persisted in the same Bolt file (namespace alert_store), so after a restart on a copy
+// of the store the service itself must load it again (loadSavedHandlerSpecs) - nothing
+// is registered by the harness in later lifetimes.
+func (w *world) registerNamed(first bool) {
+	if !w.cfg.Named || !first {
+		return
+	}
+	spec := alertservice.HandlerSpec{ID: "h", Topic: w.namedT, Kind: "talk"}
+	if err := w.env.Alert.RegisterHandlerSpec(spec); err != nil {
+		rt.Fatalf("c08: RegisterHandlerSpec: %v", err)
 	}
 }
 
@@ -217,11 +227,12 @@ func (w *world) startTask() {
 		rt.Fatalf("c08: StartTask: %v", err)
 	}
 	if w.cfg.Anon {
-		// runAlert registers its delete hook (needs the TaskMaster lock), registers the
-		// handlers and restores the anonymous topic (a View on the store) before it
-		// consumes anything.  Wait for that View: stopping a task whose alert node has
-		// not got that far deadlocks on the TaskMaster lock (see docs/notes/C08.md).
-		deadline := time.Now().Add(20 * time.Second)
+		// runAlert registers its delete hook, registers the handlers and restores the
+		// anonymous topic (a View on the store) before it consumes anything.  Wait for
+		// that View: before /repo 6afcd32, stopping a task whose alert node had not got
+		// that far deadlocked on the TaskMaster lock (see docs/notes/C08.md); it also
+		// makes "what the API reports after the task (re)start" well defined.
+		deadline := time.Now().Add(deadlineScale * 20 * time.Second)
 		for w.snap.Views.Load() == views {
 			if time.Now().After(deadline) {
 				rt.Fatalf("c08: alert node did not start")
@@ -244,7 +255,7 @@ func (w *world) stopTask() {
 }
 
 func (w *world) quiesce() {
-	deadline := time.Now().Add(20 * time.Second)
+	deadline := time.Now().Add(deadlineScale * 20 * time.Second)
 	for i := 0; ; i++ {
 		if w.ctx.enq.Load() == w.ctx.done.Load() {
 			return
@@ -266,7 +277,7 @@ func (w *world) feed(k int, p Pt) {
 		rt.Fatalf("c08: WritePoints: %v", err)
 	}
 	w.fed++
-	if !w.env.Timing.WaitStops(w.timerIdx, w.fed, 30*time.Second) {
+	if !w.env.Timing.WaitStops(w.timerIdx, w.fed, deadlineScale*30*time.Second) {
 		rt.Fatalf("c08: alert node did not finish point %d (stops=%d want %d) in %s", k, w.env.Timing.Stops(w.timerIdx), w.fed, jobOf(w.lineage))
 	}
 	w.quiesce()
@@ -360,11 +371,7 @@ func (w *world) told() rt.M {
 		out["anon"] = encEvents(w.env.NodeTalk.All())
 	}
 	if w.cfg.Named {
-		if w.namedRec != nil {
-			out["named"] = encEvents(w.namedRec.Snapshot())
-		} else {
-			out["named"] = []any{}
-		}
+		out["named"] = encEvents(w.env.SpecTalk.All())
 	}
 	return out
 }
